@@ -44,16 +44,19 @@ Theorem methods_meet_spec :
                  = three_way (hvap_backend b (PQ p 0) (PQ p 1)) (/1000) (up "enthalpy_liquefaction") 1).
 Proof.
   unfold molar_mass, p_triple, t_triple, p_critical, t_critical, saturation_pressure, surface_tension, liquid_density,
-    liquid_molar_density, gas_density, gas_molar_density, enthalpy_liquefaction, three_way, hvap_backend, up, obind.
-  repeat split; intros;
-  try (match goal with |- context [otruthy (Some ?x)] =>
-         assert (Ht : otruthy (Some x) = Some x)
-           by (unfold otruthy; cbn [neqb RNum]; replace (Reqb x (nofQ 0)) with false; [reflexivity|symmetry; apply Reqb_false; cbn; rewrite Q2R_zero; assumption]);
-         rewrite Ht; clear Ht end);
-  cbn [otruthy is_some andb bind];
-  repeat match goal with |- context [b ?k ?i] => destruct (b k i) end;
-  repeat match goal with |- context [assoc ?k props] => destruct (assoc k props) end;
-  cbn [bind]; try reflexivity; f_equal; cbn; unfold Q2R; simpl; try field; try lra.
+    liquid_molar_density, gas_density, gas_molar_density, enthalpy_liquefaction, three_way, hvap_backend, obind; subst up.
+  repeat split; intros.
+  all: try (match goal with |- context [otruthy (Some ?x)] =>
+         assert (Ht : @otruthy RNum (Some x) = Some x)
+           by (unfold otruthy; cbv [neqb RNum nofQ]; replace (Reqb x (Q2R 0)) with false;
+               [reflexivity|symmetry; apply Reqb_false; rewrite Q2R_zero; assumption]);
+         rewrite Ht; clear Ht end).
+  all: cbv [otruthy is_some andb bind].
+  all: cbv [nmul ndiv nsub nofQ RNum t].
+  all: repeat match goal with |- context [b ?k ?i] => destruct (b k i) end.
+  all: repeat match goal with |- context [assoc ?k props] => destruct (assoc k props) end.
+  all: try reflexivity.
+  all: f_equal; unfold Q2R; simpl; try field; try lra.
 Qed.
 
 (* ---- no fourth outcome (for any method meeting the three-way spec) *)
@@ -90,7 +93,8 @@ Theorem unit_argument_is_c_unit T (u : string) :
   = bind (saturation_pressure RNum b props T None true) (fun p => c_unit RNum (_PRESSURE_UNITS RNum) p (Some "Pa") (Some u) 1%Z).
 Proof.
   unfold saturation_pressure. cbn [obind].
-  destruct (b "p" (QT 0 T)); cbn [bind obind]; [reflexivity|]. destruct (assoc "saturation_pressure" props); reflexivity.
+  destruct (b "p" (QT 0 T)); cbn [bind obind]; [reflexivity|].
+  change (t RNum) with R in *. match goal with |- context [assoc ?k props] => destruct (assoc k props) end; reflexivity.
 Qed.
 Theorem unit_argument_honoured T (u : punit) p :
   saturation_pressure RNum b props T None true = Ok p ->
@@ -115,24 +119,23 @@ Definition ads_of : adsorbate RNum :=
         (r2o (molar_mass RNum b props true))
         (with_temp (liquid_density RNum b props)) (with_temp (gas_density RNum b props))
         (with_temp (liquid_molar_density RNum b props)) (with_temp (gas_molar_density RNum b props)).
+Lemma sat_p_error_is_calculation_error T e :
+  saturation_pressure RNum b props T None true = Err e -> e = CalculationError.
+Proof.
+  unfold saturation_pressure. cbn [obind]. destruct (b "p" (QT 0 T)); cbn [bind]; [discriminate|].
+  change (t RNum) with R in *.
+  match goal with |- context [assoc ?k props] => destruct (assoc k props) end; [discriminate|]. now intros [= <-].
+Qed.
 Theorem oracle_is_generated_method T u :
-  ads_saturation_pressure (ads_of) (Some T) u
-  = match saturation_pressure RNum b props T u true with Err ParameterError => Err ParameterError | Ok v => Ok v | Err _ => Err CalculationError end.
+  ads_saturation_pressure ads_of (Some T) u = saturation_pressure RNum b props T u true.
 Proof.
   unfold ads_saturation_pressure, ads_of, with_temp, r2o, oget; cbn [a_psat_Pa].
   destruct u as [u|].
   - rewrite unit_argument_is_c_unit.
-    destruct (saturation_pressure RNum b props T None true) as [p|e]; cbn [bind]; [|reflexivity].
-    unfold c_unit, _check_unit, run, bind, bindc.
-    destruct (ostr_truthy (Some u)); [|reflexivity]. cbn [negb].
-    destruct (tbl_mem (Some u) (_PRESSURE_UNITS RNum)) eqn:E; [|reflexivity]. cbn [negb].
-    assert (Hpa : tbl_mem (Some "Pa") (_PRESSURE_UNITS RNum) = true) by reflexivity. rewrite Hpa. cbn [negb ostr_truthy].
-    unfold tbl_mem in E. unfold tbl_get. destruct (assoc u (_PRESSURE_UNITS RNum)) as [f|]; [|discriminate].
-    cbn [assoc String.eqb Ascii.eqb Bool.eqb _PRESSURE_UNITS]. unfold safe_div, powz.
-    destruct (neqb (nofQ (1 # 1)) f); [reflexivity|reflexivity].
+    destruct (saturation_pressure RNum b props T None true) as [p|e] eqn:Es; cbn [bind]; [reflexivity|].
+    now rewrite (sat_p_error_is_calculation_error T e Es).
   - destruct (saturation_pressure RNum b props T None true) as [p|e] eqn:E; [reflexivity|].
-    revert E. unfold saturation_pressure. cbn [obind]. destruct (b "p" (QT 0 T)); cbn [bind]; [discriminate|].
-    destruct (assoc "saturation_pressure" props); [discriminate|]. now intros [= <-].
+    now rewrite (sat_p_error_is_calculation_error T e E).
 Qed.
 
 (* ---- consistency transfer: IF the backend's mass and molar densities are related by its molar mass (CoolProp:
@@ -152,11 +155,11 @@ Proof.
   intros Hm Hl Hg Hml Hmg. exists (mm * 1000), (yl / 1000000), (yg / 1000000).
   unfold ads_at, ads_of, with_temp, r2o, molar_mass, liquid_molar_density, gas_molar_density, liquid_density, gas_density, obind;
   cbn [a_M a_rho_l a_rho_g a_rhom_l a_rhom_g]. rewrite Hm, Hl, Hg, Hml, Hmg.
-  assert (E1 : ndiv (yl * mm) (@nofQ RNum (1000 # 1)) = yl / 1000000 * (mm * 1000)) by (cbn; unfold Q2R; simpl; field).
-  assert (E2 : ndiv (yg * mm) (@nofQ RNum (1000 # 1)) = yg / 1000000 * (mm * 1000)) by (cbn; unfold Q2R; simpl; field).
-  assert (E3 : nmul mm (@nofQ RNum (1000 # 1)) = mm * 1000) by (cbn; unfold Q2R; simpl; field).
-  assert (E4 : ndiv yl (@nofQ RNum (1000000 # 1)) = yl / 1000000) by (cbn; unfold Q2R; simpl; field).
-  assert (E5 : ndiv yg (@nofQ RNum (1000000 # 1)) = yg / 1000000) by (cbn; unfold Q2R; simpl; field).
+  assert (E1 : @ndiv RNum (yl * mm) (@nofQ RNum (1000 # 1)) = yl / 1000000 * (mm * 1000)) by (cbv [nmul ndiv nofQ RNum]; unfold Q2R; simpl; field).
+  assert (E2 : @ndiv RNum (yg * mm) (@nofQ RNum (1000 # 1)) = yg / 1000000 * (mm * 1000)) by (cbv [nmul ndiv nofQ RNum]; unfold Q2R; simpl; field).
+  assert (E3 : @nmul RNum mm (@nofQ RNum (1000 # 1)) = mm * 1000) by (cbv [nmul ndiv nofQ RNum]; unfold Q2R; simpl; field).
+  assert (E4 : @ndiv RNum yl (@nofQ RNum (1000000 # 1)) = yl / 1000000) by (cbv [nmul ndiv nofQ RNum]; unfold Q2R; simpl; field).
+  assert (E5 : @ndiv RNum yg (@nofQ RNum (1000000 # 1)) = yg / 1000000) by (cbv [nmul ndiv nofQ RNum]; unfold Q2R; simpl; field).
   rewrite E1, E2, E3, E4, E5. repeat split; reflexivity.
 Qed.
 (* ... so the C01 loading factor theorem applies to every backend adsorbate at every temperature where the backend answers *)
@@ -182,7 +185,7 @@ Theorem no_backend_is_dictionary props T :
   /\ p_critical RNum no_backend props true = match assoc "p_critical" props with Some v => Ok (v * 100000) | None => Err CalculationError end.
 Proof.
   repeat split; unfold liquid_density, saturation_pressure, molar_mass, p_critical, no_backend, obind; cbn [bind];
-  destruct (assoc _ props); try reflexivity. f_equal. cbn. unfold Q2R; simpl; field.
+  destruct (assoc _ props); try reflexivity. f_equal. cbv [nmul nofQ RNum]. unfold Q2R; simpl; field.
 Qed.
 
 (* non-vacuity: a backend with rhomass = rhomolar * M exists (nitrogen-like numbers), and the transfer hypotheses hold for it *)
@@ -193,9 +196,9 @@ Example consistent_backend_exists :
     /\ 0 < 0.0280134 /\ 0 < 28800 /\ 0 < 165.
 Proof.
   exists (fun k i => match i with
-                     | NoInput => if String.eqb k "molar_mass" then Some 0.0280134 else None
-                     | QT q _ => if String.eqb k "rhomolar" then Some (if Z.eqb q 0 then 28800 else 165)
+                     | Backend.NoInput => if String.eqb k "molar_mass" then Some 0.0280134 else None
+                     | Backend.QT q _ => if String.eqb k "rhomolar" then Some (if Z.eqb q 0 then 28800 else 165)
                                  else if String.eqb k "rhomass" then Some ((if Z.eqb q 0 then 28800 else 165) * 0.0280134) else None
-                     | PQ _ _ => None end).
-  cbn. repeat split; lra.
+                     | Backend.PQ _ _ => None end).
+  cbv [String.eqb Ascii.eqb Bool.eqb Z.eqb]. repeat split; lra.
 Qed.
